@@ -158,3 +158,120 @@ Definition new_pers (kind : N) (max : Z) (nshards : N) : option pers :=
   if (kind <? 3)%N then option_map PBase (new_base kind max)
   else if (nshards <? 2)%N then None
   else option_map (fun b => PSharded (new_sharded nshards b)) (new_base (kind - 3) max).
+
+(** ================= RangeKeys with a stopping handler, Destroy, DestroyClosed (C09) ================= *)
+
+Definition b_range_with {St : Type} (h : St -> key * bytes -> St * bool) (st : St) (b : base) : St :=
+  match b with
+  | BDb s => db_range_with h st s
+  | BSer s => sdb_range_with h st s
+  | BMem s => mem_range_with h st s
+  end.
+(** the sequence the persister's iteration walks ([b_range] in iteration order) *)
+Definition b_iter (b : base) : list (key * bytes) :=
+  match b with
+  | BDb s => if d_open s then ksort (d_disk s) else []
+  | BSer s => if s_open s then ksort (s_disk s) else []
+  | BMem s => map (fun p => (fst p, val_bytes (snd p))) (mem_range s)
+  end.
+Definition b_destroy (b : base) : base * rclass :=
+  match b with
+  | BDb s => let (s', r) := db_destroy s in (BDb s', r)
+  | BSer s => let (s', r) := sdb_destroy s in (BSer s', r)
+  | BMem s => let (s', r) := mem_destroy s in (BMem s', r)
+  end.
+Definition b_destroy_closed (b : base) : base * rclass :=
+  match b with
+  | BDb s => let (s', r) := db_destroy_closed s in (BDb s', r)
+  | BSer s => let (s', r) := sdb_destroy_closed s in (BSer s', r)
+  | BMem s => let (s', r) := mem_destroy_closed s in (BMem s', r)
+  end.
+
+(** sharded RangeKeys: `for _, persister := range s.persisters { persister.RangeKeys(handler) }` -- the SAME
+    handler (a closure, its state goes on) is handed to every shard; a `false` ends the iteration of the
+    shard that received it, the loop over the shards goes on.  Go walks the map of shards in an unspecified
+    order: [order] is that order (a permutation of the shard ids), the theorems quantify over it. *)
+Definition sh_range_with_ord {St : Type} (order : list nat) (h : St -> key * bytes -> St * bool) (st : St) (s : sharded) : St :=
+  fold_left (fun st i => b_range_with h st (get_shard s i)) order st.
+Definition sh_range_with {St : Type} (h : St -> key * bytes -> St * bool) (st : St) (s : sharded) : St :=
+  fold_left (fun st b => b_range_with h st b) (sh_shards s) st.
+
+(** Destroy / DestroyClosed of the sharded persister: one shard after the other, stop at the first error
+    (none of the base persisters' fails in the model, so the order does not matter) *)
+Fixpoint all_until_error (f : base -> base * rclass) (l : list base) : list base * rclass :=
+  match l with
+  | [] => ([], ROk)
+  | b :: r =>
+      let (b', e) := f b in
+      match e with
+      | ROk => let (r', e') := all_until_error f r in (b' :: r', e')
+      | _ => (b' :: r, e)
+      end
+  end.
+Definition sh_destroy (s : sharded) : sharded * rclass :=
+  let (l, e) := all_until_error b_destroy (sh_shards s) in ({| sh_n := sh_n s; sh_shards := l |}, e).
+Definition sh_destroy_closed (s : sharded) : sharded * rclass :=
+  let (l, e) := all_until_error b_destroy_closed (sh_shards s) in ({| sh_n := sh_n s; sh_shards := l |}, e).
+
+Definition p_range_with {St : Type} (h : St -> key * bytes -> St * bool) (st : St) (p : pers) : St :=
+  match p with PBase b => b_range_with h st b | PSharded s => sh_range_with h st s end.
+Definition p_destroy (p : pers) : pers * rclass :=
+  match p with
+  | PBase b => let (b', r) := b_destroy b in (PBase b', r)
+  | PSharded s => let (s', r) := sh_destroy s in (PSharded s', r)
+  end.
+Definition p_destroy_closed (p : pers) : pers * rclass :=
+  match p with
+  | PBase b => let (b', r) := b_destroy_closed b in (PBase b', r)
+  | PSharded s => let (s', r) := sh_destroy_closed s in (PSharded s', r)
+  end.
+
+(** what the harness's handler has been given, in the order of the calls *)
+Definition b_range_stop (n : nat) (b : base) : list (key * bytes) := rev (b_range_with (stop_handler n) [] b).
+Definition sh_range_stop_ord (order : list nat) (n : nat) (s : sharded) : list (key * bytes) :=
+  rev (sh_range_with_ord order (stop_handler n) [] s).
+Definition p_range_stop (n : nat) (p : pers) : list (key * bytes) := rev (p_range_with (stop_handler n) [] p).
+
+(** ---- acceptance of an observed visit sequence (the order of a Go map and the order in which the shards
+    are walked are the implementation's choice: the harness sends what it saw, the model says whether some
+    choice explains it) ---- *)
+Definition pair_eqb (p q : key * bytes) : bool := beqb (fst p) (fst q) && beqb (snd p) (snd q).
+Fixpoint pairs_eqb (a b : list (key * bytes)) : bool :=
+  match a, b with
+  | [], [] => true
+  | x :: a', y :: b' => pair_eqb x y && pairs_eqb a' b'
+  | _, _ => false
+  end.
+Fixpoint nodup_keysb (l : list (key * bytes)) : bool :=
+  match l with
+  | [] => true
+  | p :: r => negb (existsb (fun q => beqb (fst p) (fst q)) r) && nodup_keysb r
+  end.
+(** the [m] pairs one shard (or an unsharded persister) delivered: LevelDB -- exactly the first [m] in ascending
+    key order; memorydb -- any [m] different pairs it holds *)
+Definition b_accept_run (b : base) (m : nat) (run : list (key * bytes)) : bool :=
+  match b with
+  | BMem _ => Nat.eqb (length run) m && nodup_keysb run && forallb (fun p => existsb (pair_eqb p) (b_iter b)) run
+  | _ => pairs_eqb run (firstn m (b_iter b))
+  end.
+Definition is_nil {A} (l : list A) : bool := match l with [] => true | _ => false end.
+(** [c] calls so far, [todo] the shards not yet walked *)
+Fixpoint sh_accept (fuel : nat) (s : sharded) (n c : nat) (todo : list nat) (vs : list (key * bytes)) : bool :=
+  match vs with
+  | [] => forallb (fun i => is_nil (b_iter (get_shard s i))) todo
+  | p :: _ =>
+      match fuel with
+      | O => false
+      | S f =>
+          let i := shard_of s (fst p) in
+          let b := get_shard s i in
+          let m := expected_run n c (length (b_iter b)) in
+          existsb (Nat.eqb i) todo && negb (Nat.eqb m 0) && b_accept_run b m (firstn m vs)
+          && sh_accept f s n (c + m) (filter (fun j => negb (Nat.eqb i j)) todo) (skipn m vs)
+      end
+  end.
+Definition p_accept_stop (n : nat) (p : pers) (vs : list (key * bytes)) : bool :=
+  match p with
+  | PBase b => b_accept_run b (expected_run n 0 (length (b_iter b))) vs
+  | PSharded s => sh_accept (S (length (sh_shards s))) s n 0 (seq 0 (length (sh_shards s))) vs
+  end.
